@@ -4,6 +4,7 @@ use crate::utils::hex;
 use s3s::auth::Credentials;
 use s3s::crypto::Checksum;
 use s3s::crypto::Md5;
+use s3s::crypto::Sha256;
 use s3s::dto;
 use s3s::dto::PartNumber;
 
@@ -82,17 +83,27 @@ impl FileSystem {
     }
 
     /// resolve metadata path under the virtual root (custom format)
-    pub(crate) fn get_metadata_path(&self, bucket: &str, key: &str, upload_id: Option<Uuid>) -> Result<PathBuf> {
+    /// file name of a side file of `bucket`/`key`
+    ///
+    /// A file name holds at most 255 bytes: where the encoded key does not fit, its SHA-256 stands in for it.
+    fn side_file_name(bucket: &str, key: &str, ext: &str) -> String {
         let encode = |s: &str| base64_simd::URL_SAFE_NO_PAD.encode_to_string(s);
+        let name = format!(".bucket-{}.object-{}{ext}", encode(bucket), encode(key));
+        if name.len() <= 255 {
+            return name;
+        }
+        let mut sha256 = Sha256::new();
+        sha256.update(key.as_bytes());
+        format!(".bucket-{}.object-sha256-{}{ext}", encode(bucket), hex(sha256.finalize()))
+    }
+
+    pub(crate) fn get_metadata_path(&self, bucket: &str, key: &str, upload_id: Option<Uuid>) -> Result<PathBuf> {
         let u_ext = upload_id.map(|u| format!(".upload-{u}")).unwrap_or_default();
-        let file_path = format!(".bucket-{}.object-{}{u_ext}.metadata.json", encode(bucket), encode(key));
-        self.resolve_abs_path(file_path)
+        self.resolve_abs_path(Self::side_file_name(bucket, key, &format!("{u_ext}.metadata.json")))
     }
 
     pub(crate) fn get_internal_info_path(&self, bucket: &str, key: &str) -> Result<PathBuf> {
-        let encode = |s: &str| base64_simd::URL_SAFE_NO_PAD.encode_to_string(s);
-        let file_path = format!(".bucket-{}.object-{}.internal.json", encode(bucket), encode(key));
-        self.resolve_abs_path(file_path)
+        self.resolve_abs_path(Self::side_file_name(bucket, key, ".internal.json"))
     }
 
     /// load metadata from fs
